@@ -23,4 +23,5 @@ HARNESSES = [
     ("dwh", (), False),
     ("dwh", (), True),
     ("owh", (), False),
+    ("cwh", ("walrus_verif", "walrus_verif_small"), False),
 ]
